@@ -64,3 +64,90 @@ package kapacitor
 //@   ensures !t.align ==> result == now + time.Time(t.every)
 //@   ensures t.align ==> result == now - emod(now, time.Time(t.every)) + time.Time(t.every)
 //@   ensures result > now
+
+//@ func (*Query).SetStartTime
+//@   props C16 C05
+//@   requires q.startTL != nil
+//@   requires q.groupByTimeDL != nil ==> q.groupByTimeDL.Val != 0
+//@   modifies q.startTL.Val, q.groupByOffsetDL.Val
+//@   ensures q.startTL.Val == s
+
+//@ func (*Query).SetStopTime
+//@   props C16 C05
+//@   requires q.stopTL != nil
+//@   modifies q.stopTL.Val
+//@   ensures q.stopTL.Val == s
+
+//@ func (*Query).StartTime
+//@   props C16 C05
+//@   requires q.startTL != nil
+//@   pure
+//@   ensures result == q.startTL.Val
+
+//@ func (*Query).StopTime
+//@   props C16 C05
+//@   requires q.stopTL != nil
+//@   pure
+//@   ensures result == q.stopTL.Val
+
+// Clone: assumed (trusted) -- it rediscovers the two time literals by walking the cloned
+// statement (influxql.WalkFunc); the result owns fresh literals.
+//@ func (*Query).Clone
+//@   trusted
+//@   modifies nothing
+//@   ensures result1 == nil ==> result0 != nil && fresh(result0) && result0.startTL != nil && fresh(result0.startTL)
+//@       && result0.stopTL != nil && fresh(result0.stopTL) && result0.startTL != result0.stopTL
+//@       && (result0.groupByTimeDL != nil ==> result0.groupByTimeDL.Val != 0)
+//@       && (result0.groupByOffsetDL != nil ==> fresh(result0.groupByOffsetDL))
+
+//@ func =(github.com/influxdata/kapacitor.ticker).Next
+//@   trusted
+//@   pure
+
+// The i-th tick after `start` (i counted from 0).
+//@ spec rec tickN(tk ticker, start time.Time, i int) time.Time = ite(i <= 0, tk.Next(start), tk.Next(tickN(tk, start, i-1)))
+
+// "the historical query list for a time span is exactly the list of queries live ticks in that
+// span would have issued": the i-th query covers [tick_i - offset - period, tick_i - offset),
+// the same two literals the live loop sets for tick_i, with tick_{i+1} = Next(tick_i).
+//@ func (*QueryNode).Queries
+//@   props C16
+//@   requires n.b != nil && n.query != nil && n.ticker != nil
+//@   ensures result1 == nil ==> forall i int :: 0 <= i && i < len(result0) ==>
+//@       result0[i] != nil && result0[i].stopTL != nil && result0[i].startTL != nil
+//@       && result0[i].stopTL.Val == tickN(n.ticker, start, i) - time.Time(n.b.Offset)
+//@       && result0[i].startTL.Val == result0[i].stopTL.Val - time.Time(n.b.Period)
+//@   loop 1
+//@     modifies elems(queries)
+//@     invariant samearray(queries, before(queries)) || newinloop(queries)
+//@     invariant len(queries) == 0 ==> current == start
+//@     invariant len(queries) > 0 ==> current == tickN(n.ticker, start, len(queries)-1)
+//@     invariant forall i int :: 0 <= i && i < len(queries) ==>
+//@       queries[i] != nil && queries[i].stopTL != nil && queries[i].startTL != nil
+//@       && queries[i].stopTL.Val == tickN(n.ticker, start, i) - time.Time(n.b.Offset)
+//@       && queries[i].startTL.Val == queries[i].stopTL.Val - time.Time(n.b.Period)
+
+// time >= startTL AND time < stopTL, on the two literals owned by the Query.
+//@ spec isTimeRange(e influxql.Expr, q *Query) bool = typeis(e, *influxql.BinaryExpr) && as(e, *influxql.BinaryExpr) != nil
+//@     && as(e, *influxql.BinaryExpr).Op == influxql.AND
+//@     && typeis(as(e, *influxql.BinaryExpr).LHS, *influxql.BinaryExpr) && as(as(e, *influxql.BinaryExpr).LHS, *influxql.BinaryExpr).Op == influxql.GTE
+//@     && typeis(as(as(e, *influxql.BinaryExpr).LHS, *influxql.BinaryExpr).RHS, *influxql.TimeLiteral)
+//@     && as(as(as(e, *influxql.BinaryExpr).LHS, *influxql.BinaryExpr).RHS, *influxql.TimeLiteral) == q.startTL
+//@     && typeis(as(e, *influxql.BinaryExpr).RHS, *influxql.BinaryExpr) && as(as(e, *influxql.BinaryExpr).RHS, *influxql.BinaryExpr).Op == influxql.LT
+//@     && typeis(as(as(e, *influxql.BinaryExpr).RHS, *influxql.BinaryExpr).RHS, *influxql.TimeLiteral)
+//@     && as(as(as(e, *influxql.BinaryExpr).RHS, *influxql.BinaryExpr).RHS, *influxql.TimeLiteral) == q.stopTL
+
+// influxql prints binary expressions without parentheses and AND binds tighter than OR, so an
+// operand of AND must not itself be an OR expression (it must be parenthesised or bind tighter).
+//@ spec andSafe(e influxql.Expr) bool = typeis(e, *influxql.BinaryExpr) ==> as(e, *influxql.BinaryExpr).Op != influxql.OR
+
+// "selects data with time in [stop-period, stop) ... whatever WHERE clause the user wrote,
+// keeping the user's conditions intact": the final condition is either the time range, or
+// user AND time range with the user's expression in an AND-safe position.
+//@ func NewQuery
+//@   props C16 C05
+//@   ensures result1 == nil ==> result0 != nil && result0.stmt != nil && result0.startTL != nil && result0.stopTL != nil && result0.startTL != result0.stopTL
+//@   ensures result1 == nil ==> isTimeRange(result0.stmt.Condition, result0) ||
+//@       (typeis(result0.stmt.Condition, *influxql.BinaryExpr) && as(result0.stmt.Condition, *influxql.BinaryExpr).Op == influxql.AND
+//@        && isTimeRange(as(result0.stmt.Condition, *influxql.BinaryExpr).RHS, result0)
+//@        && andSafe(as(result0.stmt.Condition, *influxql.BinaryExpr).LHS))
